@@ -262,10 +262,59 @@ def _resolve_scalar_func(ctx, fi, node):
 
 
 def _basecase_ok(ctx):
-    """nthderiv.basecase routes n == 0 to fn_zeroth_deriv(*args)"""
+    """nthderiv.basecase: the wrapper returns fn_zeroth_deriv(*args, ...) on every path with n == 0 and f(*args, ..., n=n) on every
+    path with n != 0 (decided path by path over the tests of `n`)"""
+    from .rules_api import _paths
     fi = ctx.model.func('algopy.nthderiv.nthderiv', 'basecase')
-    txt = norm(fi.node)
-    return 'return fn_zeroth_deriv(*args)' in txt and 'if n:' in txt and 'return f(*args, out=out, n=n)' in txt
+    inner = [n for n in ast.walk(fi.node) if isinstance(n, ast.FunctionDef) and n is not fi.node and any(isinstance(r_, ast.Return) and isinstance(r_.value, ast.Call)
+                                                                                                      for r_ in ast.walk(n))]
+    wf = [n for n in inner if n.args.vararg is not None and n.args.kwarg is not None]
+    if len(wf) != 1:
+        return False
+    wf = wf[0]
+    zeroth = fi.params[0] if fi.params else 'fn_zeroth_deriv'
+    # the name holding the derivative order: popped from kwargs under the key 'n'
+    nname = None
+    for st in wf.body:
+        if isinstance(st, ast.Assign) and len(st.targets) == 1 and isinstance(st.targets[0], ast.Name) and isinstance(st.value, ast.Call) \
+                and isinstance(st.value.func, ast.Attribute) and st.value.func.attr in ('pop', 'get') and st.value.args \
+                and isinstance(st.value.args[0], ast.Constant) and st.value.args[0].value == 'n':
+            nname = st.targets[0].id
+    if nname is None:
+        return False
+
+    def n_fact(t, o):
+        """what a test outcome says about n: 'zero' | 'nonzero' | None"""
+        if isinstance(t, ast.UnaryOp) and isinstance(t.op, ast.Not):
+            return n_fact(t.operand, not o)
+        if isinstance(t, ast.Name) and t.id == nname:
+            return 'nonzero' if o else 'zero'
+        if isinstance(t, ast.Compare) and len(t.ops) == 1 and isinstance(t.left, ast.Name) and t.left.id == nname \
+                and isinstance(t.comparators[0], ast.Constant) and t.comparators[0].value == 0:
+            op = t.ops[0]
+            if isinstance(op, ast.Eq):
+                return 'zero' if o else 'nonzero'
+            if isinstance(op, (ast.NotEq, ast.Gt)):
+                return 'nonzero' if o else None if isinstance(op, ast.Gt) else 'zero'
+        return None
+    seen = {'zero': 0, 'nonzero': 0}
+    for path in _paths(wf.body):
+        stmts = [s_ for s_ in path if not isinstance(s_, tuple)]
+        if not stmts or not isinstance(stmts[-1], ast.Return):
+            continue
+        facts = {n_fact(t_[1], t_[2]) for t_ in path if isinstance(t_, tuple) and len(t_) > 2} - {None}
+        if len(facts) != 1:
+            return False
+        fact = facts.pop()
+        c = stmts[-1].value
+        if not (isinstance(c, ast.Call) and isinstance(c.func, ast.Name) and any(isinstance(a, ast.Starred) and norm(a.value) == wf.args.vararg.arg for a in c.args)):
+            return False
+        if fact == 'zero' and c.func.id != zeroth:
+            return False
+        if fact == 'nonzero' and not (c.func.id != zeroth and any(k.arg == 'n' and norm(k.value) == nname for k in c.keywords)):
+            return False
+        seen[fact] += 1
+    return seen['zero'] >= 1 and seen['nonzero'] >= 1
 
 
 def rule_base(ctx, kernels=None, rid='base'):
@@ -509,7 +558,7 @@ def rule_wrap(ctx):
             mi = m.module(modname)
             if name in mi.functions:
                 d = mi.functions[name]
-                if d.generated or name in class_dispatch_targets(d):
+                if d.generated or name in class_dispatch_targets(d, m):
                     r.ok(construct='dispatch:' + name, sample='%s.%s dispatches on the argument class to .%s' % (modname, name, name))
                 else:
                     r.bad(Finding('C01.wrap', _f(d), 'dispatch', '%s.%s does not dispatch to the class method %s' % (modname, name, name), d.file, d.lineno))
@@ -555,7 +604,44 @@ def _branches(fi):
             out.append((None, rest))
 
     chain(fi.node.body)
+    # `if A or B: (if A: X else: Y); tail` is the chain `if A: X; tail / elif B: Y; tail`
+    changed = True
+    while changed:
+        changed = False
+        for i, (t, body) in enumerate(out):
+            if isinstance(t, ast.BoolOp) and isinstance(t.op, ast.Or) and body and isinstance(body[0], ast.If) and body[0].orelse:
+                inner = body[0]
+                ds = [norm(v) for v in t.values]
+                if norm(inner.test) in ds and len(ds) >= 2:
+                    rest = [v for v in t.values if norm(v) != norm(inner.test)]
+                    t2 = rest[0] if len(rest) == 1 else ast.BoolOp(op=ast.Or(), values=rest)
+                    tail = body[1:]
+                    out[i:i + 1] = [(inner.test, inner.body + tail), (t2, inner.orelse + tail)]
+                    changed = True
+                    break
     return out
+
+
+def _operand_names(fi, operand):
+    """names that hold the coefficient data of the left operand / of the right operand inside an operator overload:
+    the pair returned by `_broadcast_arrays(self.data, <operand ...>)`, plain aliases of `self.data`"""
+    left, right = {'self.data', 'x_data'}, {operand, 'y_data'}
+    for st in walk_no_nested(fi.node):
+        if not (isinstance(st, ast.Assign) and len(st.targets) == 1):
+            continue
+        t, v = st.targets[0], st.value
+        if isinstance(t, ast.Tuple) and len(t.elts) == 2 and all(isinstance(e, ast.Name) for e in t.elts):
+            if isinstance(v, ast.Call) and (dotted_name(v.func) or '').split('.')[-1] in ('_broadcast_arrays', 'broadcast_arrays', 'broadcast') and len(v.args) == 2:
+                left.add(t.elts[0].id)
+                right.add(t.elts[1].id)
+            elif isinstance(v, ast.Tuple) and len(v.elts) == 2:
+                if norm(v.elts[0]) in left:
+                    left.add(t.elts[0].id)
+                if norm(v.elts[1]) in right:
+                    right.add(t.elts[1].id)
+        elif isinstance(t, ast.Name) and norm(v) in left:
+            left.add(t.id)
+    return left, right
 
 
 def _kind_of_test(t):
@@ -626,6 +712,7 @@ def rule_kinds(ctx):
         if kinds != ['scalar', 'object', 'ndarray', 'utpm']:
             r.note('UTPM.%s: operand-kind branches are not in the form scalar/object/ndarray/UTPM (%s); only the evidence rules apply' % (name, kinds))
         operand = fi.params[1]
+        lnames, rnames = _operand_names(fi, operand)
         for (test, body), kind in zip(br, kinds):
             key = '%s:%s' % (name, kind)
             evidence = []
@@ -638,11 +725,11 @@ def rule_kinds(ctx):
                         # whole-array additive combination with the constant
                         if additive and isinstance(n, ast.BinOp) and isinstance(n.op, (ast.Add, ast.Sub)):
                             sides = [norm(n.left), norm(n.right)]
-                            if any(x in ('self.data', 'x_data') for x in sides) and any(x in (operand, 'y_data') for x in sides):
+                            if any(x in lnames for x in sides) and any(x in rnames for x in sides):
                                 evidence.append('the constant is added to every coefficient: `%s`' % norm(n))
                         if additive and isinstance(n, ast.AugAssign) and isinstance(n.op, (ast.Add, ast.Sub)) \
                                 and isinstance(n.target, ast.Subscript) and not _first_index_is_zero(n.target) \
-                                and any(isinstance(x, ast.Name) and x.id in (operand, 'y_data') for x in ast.walk(n.value)) \
+                                and any(isinstance(x, ast.Name) and x.id in rnames for x in ast.walk(n.value)) \
                                 and not (isinstance(n.value, ast.Subscript) and _first_index_is_zero(n.value) and False):
                             first = n.target.slice.elts[0] if isinstance(n.target.slice, ast.Tuple) and n.target.slice.elts else n.target.slice
                             if isinstance(first, ast.Constant) and first.value is Ellipsis or isinstance(first, ast.Slice):
@@ -825,6 +912,28 @@ def rule_kernel_dtype(ctx):
     return r
 
 
+def resolve_locals(fi, e, depth=0):
+    """e with every local that the function binds exactly once (plain `name = expr`) replaced by that expression"""
+    if depth > 6:
+        return e
+    stores = {}
+    for n in walk_no_nested(fi.node):
+        for x in ast.walk(n) if isinstance(n, (ast.Assign, ast.AugAssign, ast.For, ast.With, ast.AnnAssign)) else []:
+            if isinstance(x, ast.Name) and isinstance(x.ctx, ast.Store):
+                stores.setdefault(x.id, []).append(n)
+    import copy as _copy
+
+    class T(ast.NodeTransformer):
+        def visit_Name(self, n):
+            if isinstance(n.ctx, ast.Load) and n.id not in fi.params and len(stores.get(n.id, ())) == 1:
+                st = stores[n.id][0]
+                if isinstance(st, ast.Assign) and len(st.targets) == 1 and isinstance(st.targets[0], ast.Name):
+                    return resolve_locals(fi, _copy.deepcopy(st.value), depth + 1)
+            return n
+    return T().visit(_copy.deepcopy(e))
+
+
+
 def rule_reflect(ctx):
     r = RuleResult('C02.reflect', 'reflected operators delegate to the binary form with the right algebra: c+x -> x+c, c*x -> x*c, '
                                   'c-x -> (-x)+c, c/x -> lift(c)/x with the constant lifted through __add__ (dtype promotion, UTPM-aware '
@@ -865,24 +974,80 @@ def rule_reflect(ctx):
             r.bad(Finding('C02.reflect', _f(fi), '__rtruediv__', 'c / x does not lift the constant through __add__ (raw store of the constant into '
                           'the coefficient array mixes the direction axis with array axes and keeps self\'s dtype): %s'
                           % ([norm(s) for s in raw_store] or [norm(x) for x in rets]), fi.file, fi.lineno))
+    CLS = ('UTPM', 'cls', 'self.__class__', 'type(self)')
+    resolved = resolve_locals
+
+    def is_exp_of(e, pred):
+        """X.exp(arg) / arg.exp() with pred(arg)"""
+        if isinstance(e, ast.Call) and isinstance(e.func, ast.Attribute) and e.func.attr == 'exp' and not e.keywords:
+            if len(e.args) == 1 and norm(e.func.value) in CLS + ('algopy', 'self'):
+                return pred(e.args[0])
+            if not e.args:
+                return pred(e.func.value)
+        return False
+
+    def is_product(e, pa, pb):
+        return isinstance(e, ast.BinOp) and isinstance(e.op, ast.Mult) and ((pa(e.left) and pb(e.right)) or (pb(e.left) and pa(e.right)))
+
+    def is_log_of(e, what, recv):
+        if isinstance(e, ast.Call) and isinstance(e.func, ast.Attribute) and e.func.attr == 'log' and not e.keywords:
+            if len(e.args) == 1 and norm(e.args[0]) == what and norm(e.func.value) in recv:
+                return True
+            if not e.args and norm(e.func.value) == what and what == 'self':
+                return True
+        return False
     fi = m.lookup_method('UTPM', '__pow__')
     if fi is not None:
-        txt = norm(fi.node)
-        if 'UTPM.exp(UTPM.log(self) * r)' in txt and 'self._pow_real(x_data, r, y_data)' in txt:
+        rn = fi.params[1]
+        from .rules_api import _paths
+        poly_ok, const_calls = False, []
+        for path in _paths(fi.node.body):
+            stmts = [s_ for s_ in path if not isinstance(s_, tuple)]
+            tests = [(t_[1], t_[2]) for t_ in path if isinstance(t_, tuple) and len(t_) > 2]
+            is_poly = any(norm(t_) in ('isinstance(%s, UTPM)' % rn, 'isinstance(%s, cls)' % rn, 'isinstance(%s, self.__class__)' % rn) and o for t_, o in tests)
+            if not stmts or not isinstance(stmts[-1], ast.Return) or stmts[-1].value is None:
+                continue
+            if is_poly:
+                v = resolved(fi, stmts[-1].value)
+                if is_exp_of(v, lambda a: is_product(a, lambda l: is_log_of(l, 'self', CLS), lambda x: norm(x) == rn)):
+                    poly_ok = True
+            else:
+                for s_ in stmts:
+                    for c in ast.walk(s_):
+                        if isinstance(c, ast.Call) and isinstance(c.func, ast.Attribute) and c.func.attr == '_pow_real':
+                            const_calls.append(c)
+        routed = False
+        out_arrays = []
+        for c in const_calls:
+            args = list(c.args)
+            outv = args[2] if len(args) > 2 else next((k.value for k in c.keywords if k.arg == 'out'), None)
+            if len(args) >= 2 and norm(resolved(fi, args[0])) == 'self.data' and norm(args[1]) == rn and outv is not None:
+                routed = True
+                out_arrays.append(outv)
+        if poly_ok and routed:
             r.ok(construct='__pow__', sample='UTPM.__pow__: polynomial exponent -> exp(log(x)*r); otherwise _pow_real')
         else:
             r.bad(Finding('C02.reflect', _f(fi), '__pow__', 'UTPM.__pow__ no longer routes polynomial exponents to exp(log(x)*r) and constants to _pow_real', fi.file, fi.lineno))
-        # dtype of the result
-        allocs = [s for s in walk_no_nested(fi.node) if isinstance(s, ast.Assign) and norm(s.targets[0]) == 'y_data']
-        good = [s for s in allocs if any(k in norm(s.value) for k in ('result_type', 'promote_types')) and 'r' in [n.id for n in ast.walk(s.value) if isinstance(n, ast.Name)]]
-        if allocs and good:
+        # dtype of the result: the array handed to _pow_real is allocated with a dtype promoted over base and exponent
+        allocs = [resolved(fi, o) for o in out_arrays]
+        good = []
+        for a_ in allocs:
+            if isinstance(a_, ast.Call) and (dotted_name(a_.func) or '').split('.')[-1] in ('zeros', 'empty', 'ones', 'zeros_like', 'empty_like'):
+                dt = next((k.value for k in a_.keywords if k.arg == 'dtype'), None)
+                if dt is not None and any(k in norm(dt) for k in ('result_type', 'promote_types')) and rn in [n.id for n in ast.walk(dt) if isinstance(n, ast.Name)] \
+                        and any(x in norm(dt) for x in ('self.data', 'self')):
+                    good.append(a_)
+        if allocs and len(good) == len(allocs):
             r.ok(construct='__pow__:dtype', nontrivial=True, sample='UTPM.__pow__: `%s`' % norm(good[0]))
         else:
             r.bad(Finding('C02.reflect', _f(fi), '__pow__:dtype', 'the result of x**r is not allocated with a dtype promoted over base and exponent '
-                          '(%s): a complex exponent loses its imaginary part' % [norm(s) for s in allocs], fi.file, fi.lineno))
+                          '(%s): a complex exponent loses its imaginary part' % [norm(s_)[:80] for s_ in allocs], fi.file, fi.lineno))
     fi = m.lookup_method('UTPM', '__rpow__')
     if fi is not None:
-        if 'return UTPM.exp(numpy.log(r) * self)' in norm(fi.node):
+        rn = fi.params[1]
+        rets = [n for n in walk_no_nested(fi.node) if isinstance(n, ast.Return) and n.value is not None]
+        if rets and all(is_exp_of(resolved(fi, x.value), lambda a: is_product(a, lambda l: is_log_of(l, rn, ('numpy', 'math', 'cmath')) and norm(l.func.value) == 'numpy',
+                                                                                lambda x_: norm(x_) == 'self')) for x in rets):
             r.ok(construct='__rpow__', sample='UTPM.__rpow__: exp(log(r)*x)')
         else:
             r.bad(Finding('C02.reflect', _f(fi), '__rpow__', 'UTPM.__rpow__ is not exp(log(r)*x)', fi.file, fi.lineno))
@@ -979,8 +1144,20 @@ def rule_linalg_kinds(ctx):
             r.note('UTPM.outer takes the result dtype from one operand only (real operands are the property\'s domain)')
     # inv, trace, det, logdet building blocks
     fi = m.lookup_method('UTPM', 'inv')
-    if fi is not None and 'cls._inv(A.data, (out.data,))' in norm(fi.node):
-        r.ok(construct='inv', sample='UTPM.inv -> _inv(A.data, (out.data,))')
+    inv_ok = False
+    if fi is not None and fi.value_params():
+        A_ = fi.value_params()[0]
+        for c in walk_no_nested(fi.node):
+            if isinstance(c, ast.Call) and isinstance(c.func, ast.Attribute) and c.func.attr == '_inv' and c.args:
+                outv = c.args[1] if len(c.args) > 1 else next((k.value for k in c.keywords if k.arg == 'out'), None)
+                outv = resolve_locals(fi, outv) if outv is not None else None
+                first = norm(resolve_locals(fi, c.args[0]))
+                rets = [n_ for n_ in walk_no_nested(fi.node) if isinstance(n_, ast.Return) and n_.value is not None]
+                if first == A_ + '.data' and isinstance(outv, (ast.Tuple, ast.List)) and len(outv.elts) == 1 and isinstance(outv.elts[0], ast.Attribute) \
+                        and outv.elts[0].attr == 'data' and rets and all(norm(r_.value) == norm(outv.elts[0].value) for r_ in rets):
+                    inv_ok = True
+    if inv_ok:
+        r.ok(construct='inv', sample='UTPM.inv -> _inv(A.data, (out.data,)), returns out')
     elif fi is not None:
         r.bad(Finding('C07.kinds', _f(fi), 'inv', 'UTPM.inv no longer calls _inv(A.data, (out.data,))', fi.file, fi.lineno))
     r.floor = 12
@@ -1199,6 +1376,8 @@ def rule_dispatch(ctx):
             if len(star) != 1 or len(kw) != 1 or len(c.args) != 1 or len(c.keywords) != 1:
                 probs.append('arguments are not forwarded as (*args, **kwargs): %s' % norm(c)[:80])
             consts = [x.value for x in ast.walk(c.func) if isinstance(x, ast.Constant) and isinstance(x.value, str)]
+            if not consts and isinstance(c.func, ast.Attribute) and dotted_name(c.func) is not None:
+                consts = [c.func.attr]          # the attribute written out: <namespace>.<name>(...)
             if consts != [name]:
                 probs.append('dispatch target name %s differs from the function name %s' % (consts, name))
         tests = [n for n in walk_no_nested(fi.node) if isinstance(n, ast.Call) and isinstance(n.func, ast.Name) and n.func.id == 'hasattr']
@@ -1521,11 +1700,25 @@ def rule_map(ctx):
             continue
         calls = [c for c in walk_no_nested(fi.node) if isinstance(c, ast.Call) and dotted_name(c.func) == fn]
         inner = []
+        # (D, P) as the function names them: `A, B = <array>.shape[:2]`
+        dp_pairs = {('D', 'P')}
+        for st_ in walk_no_nested(fi.node):
+            if isinstance(st_, ast.Assign) and len(st_.targets) == 1 and isinstance(st_.targets[0], ast.Tuple) and len(st_.targets[0].elts) == 2 \
+                    and all(isinstance(e_, ast.Name) for e_ in st_.targets[0].elts) and isinstance(st_.value, ast.Subscript) \
+                    and isinstance(st_.value.value, ast.Attribute) and st_.value.value.attr == 'shape' and isinstance(st_.value.slice, ast.Slice) \
+                    and st_.value.slice.lower is None and st_.value.slice.step is None and norm(st_.value.slice.upper) == '2':
+                dp_pairs.add(tuple(e_.id for e_ in st_.targets[0].elts))
+        loopvars = {}
         for lp in walk_no_nested(fi.node):
-            if isinstance(lp, ast.For) and norm(lp.iter) == 'range(D)':
-                for lp2 in lp.body:
-                    if isinstance(lp2, ast.For) and norm(lp2.iter) == 'range(P)':
-                        inner.extend(c for c in ast.walk(lp2) if isinstance(c, ast.Call) and dotted_name(c.func) == fn)
+            if isinstance(lp, ast.For) and isinstance(lp.target, ast.Name):
+                for (A_, B_) in dp_pairs:
+                    if norm(lp.iter) == 'range(%s)' % A_:
+                        for lp2 in lp.body:
+                            if isinstance(lp2, ast.For) and isinstance(lp2.target, ast.Name) and norm(lp2.iter) == 'range(%s)' % B_:
+                                for c in ast.walk(lp2):
+                                    if isinstance(c, ast.Call) and dotted_name(c.func) == fn:
+                                        inner.append(c)
+                                        loopvars[id(c)] = (lp.target.id, lp2.target.id)
         probs = []
         if not inner and name in ('tril', 'triu'):
             # the sibling identity  triu(x, k) = tril(x.T, -k).T  (and vice versa)
@@ -1556,7 +1749,8 @@ def rule_map(ctx):
                 r.bad(Finding('C13.map', _f(fi), name + ':axis', 'UTPM.%s: %s' % (name, verdict[1]), fi.file, fi.lineno))
             continue
         for c in inner:
-            if not (c.args and isinstance(c.args[0], ast.Subscript) and norm(c.args[0].slice).replace(' ', '') in ('(d,p)', '(d,p,...)')):
+            dv_, pv_ = loopvars.get(id(c), ('d', 'p'))
+            if not (c.args and isinstance(c.args[0], ast.Subscript) and norm(c.args[0].slice).replace(' ', '') in ('(%s,%s)' % (dv_, pv_), '(%s,%s,...)' % (dv_, pv_))):
                 probs.append('%s is not applied to slice [d, p]: `%s`' % (fn, norm(c)[:60]))
             used = {x.id for x in ast.walk(c) if isinstance(x, ast.Name)}
             for e in extra:
@@ -1600,7 +1794,19 @@ def rule_map(ctx):
     # whole-array maps
     for name, fn in (('conjugate', 'numpy.conjugate'),):
         fi = m.lookup_method('UTPM', name)
-        if fi is not None and 'return UTPM(%s(self.data))' % fn in norm(fi.node):
+        okc = False
+        if fi is not None:
+            me = fi.params[0] if fi.params else 'self'
+            rets = [n_ for n_ in walk_no_nested(fi.node) if isinstance(n_, ast.Return) and n_.value is not None]
+            okc = bool(rets)
+            for r_ in rets:
+                v = resolve_locals(fi, r_.value)
+                inner_ = v.args[0] if isinstance(v, ast.Call) and len(v.args) == 1 and not v.keywords and norm(v.func) in ('UTPM', 'cls', me + '.__class__', 'type(%s)' % me) else None
+                whole = isinstance(inner_, ast.Call) and not inner_.keywords and (
+                    (dotted_name(inner_.func) in (fn, 'numpy.conj') and len(inner_.args) == 1 and norm(inner_.args[0]) == me + '.data')
+                    or (isinstance(inner_.func, ast.Attribute) and inner_.func.attr in ('conjugate', 'conj') and not inner_.args and norm(inner_.func.value) == me + '.data'))
+                okc = okc and whole
+        if okc:
             r.ok(construct=name, sample='UTPM.%s applies %s to the whole coefficient array' % (name, fn))
         elif fi is not None:
             r.bad(Finding('C13.map', _f(fi), name, 'UTPM.%s does not apply %s to the whole data array' % (name, fn), fi.file, fi.lineno))
@@ -1914,27 +2120,43 @@ def rule_broadcast_axes(ctx):
                 ie.facts['%s.ndim' % nm] = len(l)
                 ie.facts['numpy.ndim(%s)' % nm] = len(l)
                 ie.facts['len(numpy.shape(%s))' % nm] = len(l)
+        def labels_of(v):
+            """axis labels of an array expression: a labelled name, or a transpose of one (method / numpy.transpose / .T)"""
+            if isinstance(v, ast.Name):
+                return list(lab[v.id]) if v.id in lab else None
+            if isinstance(v, ast.Attribute) and v.attr == 'T':
+                src = labels_of(v.value)
+                return None if src is None else list(reversed(src))
+            if isinstance(v, ast.Call) and isinstance(v.func, ast.Attribute) and v.func.attr == 'transpose' and dotted_name(v.func) != 'numpy.transpose':
+                src = labels_of(v.func.value)
+                if src is None:
+                    return None
+                if not v.args:
+                    ax = tuple(reversed(range(len(src))))
+                else:
+                    ax = ie.ev(v.args[0]) if len(v.args) == 1 else tuple(ie.ev(a) for a in v.args)
+                if not isinstance(ax, tuple) or sorted(ax) != list(range(len(src))):
+                    raise AxisViolation('axes %s are not a permutation of the %d axes of %s' % (ax, len(src), norm(v.func.value)))
+                return [src[i] for i in ax]
+            if isinstance(v, ast.Call) and (dotted_name(v.func) or '') == 'numpy.transpose' and v.args:
+                src = labels_of(v.args[0])
+                if src is None:
+                    return None
+                axn = v.args[1] if len(v.args) > 1 else next((k.value for k in v.keywords if k.arg == 'axes'), None)
+                ax = tuple(reversed(range(len(src)))) if axn is None else ie.ev(axn)
+                if not isinstance(ax, tuple) or sorted(ax) != list(range(len(src))):
+                    raise AxisViolation('axes %s are not a permutation' % (ax,))
+                return [src[i] for i in ax]
+            return None
         for st in fi.node.body:
             rank_facts()
             if isinstance(st, ast.Expr) and isinstance(st.value, ast.Constant):
                 continue
             if isinstance(st, ast.Assign) and len(st.targets) == 1 and isinstance(st.targets[0], ast.Name):
                 t, v = st.targets[0].id, st.value
-                if isinstance(v, ast.Call) and isinstance(v.func, ast.Attribute) and v.func.attr == 'transpose' and isinstance(v.func.value, ast.Name) \
-                        and v.func.value.id in lab:
-                    ax = ie.ev(v.args[0]) if len(v.args) == 1 else tuple(ie.ev(a) for a in v.args)
-                    src = lab[v.func.value.id]
-                    if sorted(ax) != list(range(len(src))):
-                        raise AxisViolation('axes %s are not a permutation of the %d axes of %s' % (ax, len(src), v.func.value.id))
-                    lab[t] = [src[i] for i in ax]
-                    continue
-                if isinstance(v, ast.Call) and (dotted_name(v.func) or '') == 'numpy.transpose' and v.args and isinstance(v.args[0], ast.Name) and v.args[0].id in lab:
-                    axn = v.args[1] if len(v.args) > 1 else next((k.value for k in v.keywords if k.arg == 'axes'), None)
-                    src = lab[v.args[0].id]
-                    ax = tuple(reversed(range(len(src)))) if axn is None else ie.ev(axn)
-                    if sorted(ax) != list(range(len(src))):
-                        raise AxisViolation('axes %s are not a permutation' % (ax,))
-                    lab[t] = [src[i] for i in ax]
+                l_ = labels_of(v)
+                if l_ is not None:
+                    lab[t] = l_
                     continue
                 ie.env[t] = ie.ev(v)
                 continue
@@ -1962,7 +2184,7 @@ def rule_broadcast_axes(ctx):
                 continue
             if isinstance(st, ast.Return):
                 vals = st.value.elts if isinstance(st.value, ast.Tuple) else [st.value]
-                return [lab.get(x.id) if isinstance(x, ast.Name) else None for x in vals], at_bc
+                return [labels_of(x) for x in vals], at_bc
             raise NotEvaluable('statement not understood: ' + norm(st)[:60])
         raise NotEvaluable('no return reached')
 
